@@ -47,7 +47,7 @@ def gen_cases(ctx):
         elif r < 0.75:
             vars_ = {}
         d = "/dir/p%d/s%d" % (pipe, i) if rng.random() < 0.4 else ""
-        return {"env": env, "vars": vars_, "dir": d, "delay_us": rng.choice([0, 0, 200, 800, 2000])}
+        return {"env": env, "vars": vars_, "dir": d, "delay_us": rng.choice([0, 0, 200, 800, 2000]), "allow": rng.random() < 0.3}
 
     def mk(deps, pipe):
         return [dict(ov(i, pipe), deps=list(deps[i])) for i in range(len(deps))]
@@ -195,7 +195,7 @@ def coq_amap(m, I):
 
 
 def coq_settings(s, I):
-    return "(mkSet %s %s %d)" % (coq_amap(s["env"], I), coq_amap(s["vars"], I), I(s["dir"]))
+    return "(mkSet %s %s %d %d)" % (coq_amap(s["env"], I), coq_amap(s["vars"], I), I(s["dir"]), I(s.get("rest", "")))
 
 
 def coq_ov(s, I):
@@ -242,7 +242,7 @@ def run(ctx):
             res.violations.append({"class": None, "what": "pipeline over a shared task crashed or failed: %s" % (o.get("panic") or o.get("err")), "case": c, "observed": o})
             continue
         I = Intern()
-        t = coq_settings({"env": c["env"], "vars": c["vars"], "dir": c["dir"]}, I)
+        t = coq_settings({"env": c["env"], "vars": c["vars"], "dir": c["dir"], "rest": o.get("rest0", "")}, I)
         for part, (sts, handed, direct) in enumerate(((c["stages"], o.get("p1") or [], o["direct1"]),
                                                       (c["stages2"], o.get("p2") or [], o.get("direct2")))):
             if not sts:
@@ -266,7 +266,7 @@ def run(ctx):
     for k in sorted(bad):
         c, o, part = index[k]
         res.violations.append({"class": None, "case": c, "observed": o,
-                               "what": "an execution was handed settings other than its task's own layered with its own stage's overrides, or the task itself was modified (pipeline %d)" % (part + 1),
+                               "what": "an execution was handed settings other than its task's own layered with its own stage's overrides (or another field of the task - name, commands, hooks, timeout, allow_failure ... - was changed on the way), or the task itself was modified (pipeline %d)" % (part + 1),
                                "predicted": "each stage: task settings layered with that stage's overrides; direct run: the task's own settings"})
     if not ctx.replay_cases:
         run_cli_part(ctx, res)
